@@ -370,6 +370,61 @@ pub fn overflow_history(variant: usize) -> Option<String> {
     match res { Ok(r) => r, Err(e) => Some(format!("panic: {}", crate::rec_ipm::panic_msg(e))) }
 }
 
+/// Histories through a poisoned solve on the seed problems (nonnegative, equality + nonnegative, second-order,
+/// exponential): one data term is overwritten through the update API with NaN / infinite / 1e308 entries, the solver is
+/// run (whatever happens), the original data are written back through the same entry point and the solver is run again.
+/// The data are then bit for bit those of a solver built on the original problem, so the last solve must be that solver's.
+pub fn poison_history(variant: usize) -> Option<String> {
+    let all = seeds();
+    let seed = &all[variant % all.len()];
+    let kind = (variant / all.len()) % 7;
+    let equil = (variant / (all.len() * 7)) % 2 == 0;
+    let cur: [Vec<usize>; 4] = [vec![0; 3], vec![0; 2], vec![0; 3], vec![0; 3]];
+    let p = seed.problem(&cur, equil);
+    let res = catch_unwind(AssertUnwindSafe(|| -> Option<String> {
+        let (P, A) = (p.P.to_clarabel(), p.A.to_clarabel());
+        let pt = P.to_triu();
+        let mk = || DefaultSolver::new(&P, &p.q, &A, &p.b, &p.clarabel_cones(), p.settings());
+        let mut solver = mk();
+        if !solver.is_data_update_allowed() { return None; }
+        solver.solve();
+        let with = |v: &[f64], f: &dyn Fn(usize, f64) -> f64| -> Vec<f64> { v.iter().enumerate().map(|(i, x)| f(i, *x)).collect() };
+        let (what, r1) = match kind {
+            0 => ("update_q with a NaN entry", res_name(solver.update_q(&with(&p.q, &|i, x| if i == 0 { f64::NAN } else { x })))),
+            1 => ("update_q with an infinite entry", res_name(solver.update_q(&with(&p.q, &|i, x| if i == 0 { f64::INFINITY } else { x })))),
+            2 => ("update_q with entries 1e308", res_name(solver.update_q(&with(&p.q, &|_, _| 1e308)))),
+            3 => ("update_A with entries 1e308", res_name(solver.update_A(&with(&A.nzval, &|_, _| 1e308)))),
+            4 => ("update_A with a NaN entry", res_name(solver.update_A(&with(&A.nzval, &|i, x| if i == 0 { f64::NAN } else { x })))),
+            5 => ("update_P with entries 1e308", res_name(solver.update_P(&with(&pt.nzval, &|_, _| 1e308)))),
+            _ => ("update_b with a NaN entry", res_name(solver.update_b(&with(&p.b, &|i, x| if i == 0 { f64::NAN } else { x })))),
+        };
+        if r1 != "Ok" { return None; }          // (a refused update leaves nothing to compare)
+        solver.solve();
+        let mid = solver.solution.status;
+        let r2 = match kind { 0 | 1 | 2 => res_name(solver.update_q(&p.q)), 3 | 4 => res_name(solver.update_A(&A.nzval)),
+                              5 => res_name(solver.update_P(&pt.nzval)), _ => res_name(solver.update_b(&p.b)) };
+        if r2 != "Ok" { return Some(format!("poison history on {}: writing the original data back returned {}", seed.name, r2)); }
+        solver.solve();
+        let mut fresh = mk();
+        fresh.solve();
+        let (s1, s2) = (&solver.solution, &fresh.solution);
+        // without equilibration bit for bit; with it the update path scales the data by one product where the constructor
+        // multiplied step by step, so the scaled data agree only up to rounding: same verdict and objective to 1e-6
+        let close = |a: f64, b: f64| (a.is_nan() && b.is_nan()) || (a - b).abs() <= 1e-6 * (1.0 + a.abs().max(b.abs()));
+        let same = if equil { s1.status == s2.status && close(s1.obj_val, s2.obj_val) && s1.x.iter().zip(&s2.x).all(|(a, b)| close(*a, *b) || (a - b).abs() <= 1e-5) }
+            else { s1.status == s2.status && s1.iterations == s2.iterations
+            && (s1.obj_val.to_bits() == s2.obj_val.to_bits() || (s1.obj_val.is_nan() && s2.obj_val.is_nan()))
+            && s1.x.iter().zip(&s2.x).all(|(a, b)| a.to_bits() == b.to_bits() || (a.is_nan() && b.is_nan()))
+            && s1.z.iter().zip(&s2.z).all(|(a, b)| a.to_bits() == b.to_bits() || (a.is_nan() && b.is_nan())) };
+        if !same {
+            return Some(format!("poison history on {} (equilibration {}): after {} (that solve ended {:?}) and the original data written back, the solver ends {:?} after {} iterations (obj {}) but a solver built on the same data ends {:?} after {} (obj {})",
+                                seed.name, equil, what, mid, s1.status, s1.iterations, s1.obj_val, s2.status, s2.iterations, s2.obj_val));
+        }
+        None
+    }));
+    match res { Ok(r) => r, Err(e) => Some(format!("panic: {}", crate::rec_ipm::panic_msg(e))) }
+}
+
 /// A history in which wall-clock time matters: a finite time_limit, and every solve is delayed (scripted sleep at
 /// iteration 1) by 40% of the limit.  Each solve alone stays far inside the limit, so every solve of the updated
 /// solver must end like a fresh solver's (which is delayed in the same way); only time charged from *earlier*
@@ -460,6 +515,12 @@ pub fn replay_file(path: &str, out: &str, seed: u64, every: usize) -> Value {
             if let Some(m) = overflow_history(v as usize) { bad.push(json!({"behaviour": b, "variant": v, "mismatch": m, "class": "solve_after_overflowed_solve"})); }
             continue;
         }
+        if let Some(v) = b.get("poison").and_then(|x| x.as_u64()) {
+            n += 1;
+            timed_done = true;
+            if let Some(m) = poison_history(v as usize) { bad.push(json!({"behaviour": b, "variant": v, "mismatch": m, "class": "solve_after_poisoned_solve"})); }
+            continue;
+        }
         if b.get("timed").is_some() {
             n += 1;
             timed_done = true;
@@ -492,6 +553,15 @@ pub fn replay_file(path: &str, out: &str, seed: u64, every: usize) -> Value {
             n += 1;
             if let Some(m) = overflow_history(v) {
                 bad.push(json!({"behaviour": {"blocked": "none", "hist": [], "overflow": v}, "variant": v, "mismatch": m, "class": "solve_after_overflowed_solve"}));
+            }
+        }
+    }
+    // histories through a poisoned solve (4 problems x 7 kinds of poison x equilibration on / off)
+    if !timed_done {
+        for v in 0..56usize {
+            n += 1;
+            if let Some(m) = poison_history(v) {
+                bad.push(json!({"behaviour": {"blocked": "none", "hist": [], "poison": v}, "variant": v, "mismatch": m, "class": format!("solve_after_poisoned_solve_{}", (v / 4) % 7)}));
             }
         }
     }
